@@ -73,10 +73,10 @@ Proof. exact: (rank_complex_bound clsf_arc clsf_rep S_entry). Qed.
 End Net.
 
 (** the same with the standard library's order and addition *)
-Theorem rank_bound_le net iso :
+Theorem rank_bound_le net iso r0 :
   let m := length (C17_Model.species_order net iso) in
   let n := length (C17_Model.reaction_order net) in
-  let s := C19_Model.compute_summary net iso 0 in
+  let s := C19_Model.compute_summary net iso r0 in
   Peano.le (Nat.add (\rank (toM m n (C17_Model.build_S net iso))) (C19_Model.n_linkage s)) (C19_Model.n_complexes s).
 Proof.
 move=> m n s; rewrite /s C19_Linkage.compute_summary_eq /=.
@@ -115,6 +115,63 @@ Qed.
 
 Print Assumptions deficiency_nonneg.
 
+(* ------------------------------------------------------------------ sum of the linkage-class deficiencies *)
+
+Lemma sum_nth T (g : T -> nat) (s : seq T) (d : T) :
+  (\sum_(0 <= c < length s) g (List.nth c s d))%nat = List.list_sum (List.map g s).
+Proof.
+elim: s => [|a s IH]; first by rewrite big_geq.
+by rewrite /= big_nat_recl //= IH plusE.
+Qed.
+
+Section Sum.
+Variables (net : seq C17_Model.rxn) (iso : seq C17_Model.str).
+Let cs := fst (C19_Model.complex_graph net iso).
+Let arcs := snd (C19_Model.complex_graph net iso).
+Let L := C19_Model.linkage_classes arcs (length cs).
+Let l := length L.
+Let m := length (C17_Model.species_order net iso).
+Let r := length (C17_Model.reaction_order net).
+Let S := C17_Model.build_S net iso.
+Let Dl (c : nat) := C19_Bridge.cdiffs net iso c.
+
+Definition dfun (c : 'I_l) : nat := length (Dl c).
+Definition Dm (c : 'I_l) : 'M[rat]_(dfun c, m) := toM (dfun c) m (Dl c).
+
+Lemma cols_spec (j : 'I_r) :
+  (forall i, toM m r S i j = 0) \/ exists c : 'I_l, exists t : 'I_(dfun c), forall i, toM m r S i j = Dm c t i.
+Proof.
+have jr : (j < length (C17_Model.reaction_order net))%coq_nat by apply/ltP.
+case: (C19_Bridge.column_in_class_diffs net iso j jr) => [z | [c [t [/ltP Hc [/ltP Ht e]]]]].
+- by left => i; rewrite mxE getz_list z //; apply/ltP.
+- right; exists (Ordinal Hc), (Ordinal Ht) => i; rewrite !mxE !getz_list /=.
+  by rewrite e //; apply/ltP.
+Qed.
+
+(** exact rank of S <= sum over the linkage classes of the exact ranks of their difference vectors *)
+Theorem rank_le_class_ranks : (\rank (toM m r S) <= \sum_(c < l) \rank (Dm c))%nat.
+Proof. exact: (rank_blocks cols_spec). Qed.
+
+Theorem linkage_sum (rc : C17_Model.rcert) (ccs : seq C17_Model.rcert) :
+  C19_Model.certs_ok net iso rc ccs = true ->
+  (C19_Model.zsum (C19_Model.linkage_deficiencies L (List.map C17_Model.rc_r ccs))
+   <= C19_Model.deficiency (C19_Model.compute_summary net iso (C17_Model.rc_r rc)))%Z.
+Proof.
+move=> /C19_Bridge.certs_ok_spec [] /C17_Rank.rank_checked_sound ES [] El Ec.
+have B := rank_le_class_ranks; rewrite ES in B.
+have E : (\sum_(c < l) \rank (Dm c))%nat = List.list_sum (List.map C17_Model.rc_r ccs).
+  rewrite -(sum_nth _ _ C19_Bridge.dummy_cert) El -/L -/l big_mkord.
+  apply: eq_bigr => c _; apply: C17_Rank.rank_checked_sound.
+  by apply: Ec; apply/ltP.
+rewrite E in B.
+rewrite C19_Bridge.zsum_linkage_deficiencies; last by rewrite List.map_length.
+rewrite C19_Bridge.concat_classes_length C19_Linkage.compute_summary_eq /= /C19_Model.deficiency_of.
+rewrite -/cs -/arcs -/L.
+lia.
+Qed.
+End Sum.
+Print Assumptions linkage_sum.
+
 (* non-vacuity: A + B <-> C, C -> 2A: S has rank 2 (certificate accepted), 3 complexes, 1 class, deficiency 0 *)
 Definition ex_rc : C17_Model.rcert :=
   C17_Model.RCert 2 [:: [:: -1; 2]; [:: -1; 0]; [:: 1; -1]]%Z [:: [:: 1; -1; 0]; [:: 0; 0; 1]]%Z
@@ -122,4 +179,13 @@ Definition ex_rc : C17_Model.rcert :=
 Example ex_deficiency :
   C17_Model.rank_checked 3 3 (C17_Model.build_S C19_Complexes.ex_net nil) ex_rc = true /\
   C19_Model.deficiency (C19_Model.compute_summary C19_Complexes.ex_net nil 2) = 0%Z.
+Proof. by split; vm_compute. Qed.
+
+(* non-vacuity for linkage_sum: the single class of the example has difference vectors of rank 2, class deficiency 3-1-2 = 0 *)
+Definition ex_cc : C17_Model.rcert :=
+  C17_Model.RCert 2 [:: [:: 1; 0]; [:: -1; 0]; [:: 0; 1]]%Z [:: [:: -1; -1; 1]; [:: 2; 0; -1]]%Z
+                    [:: [:: 1; 0; 0]; [:: 0; 0; 1]]%Z [:: [:: 0; 1]; [:: -2; -1]; [:: 0; 0]]%Z 2%Z.
+Example ex_linkage_sum :
+  C19_Model.certs_ok C19_Complexes.ex_net nil ex_rc [:: ex_cc] = true /\
+  C19_Model.linkage_deficiencies (C19_Model.linkage_classes C19_Complexes.ex_arcs 3) [:: 2%nat] = [:: 0%Z].
 Proof. by split; vm_compute. Qed.
